@@ -38,7 +38,10 @@ RULE = ("CEL expressions are generated as lark-shaped trees by random derivation
         "reference below the root of its expression or (workflows) at least two steps with a reference; distinct "
         "by content. Watch stream: 8 definitions (ref, two refs, refSwitch with 3 cases, sub-workflow, 1 and 2 "
         "overlayRef functions, FunctionTest of a VF / RF) x fixed and random scripts of appear / change / "
-        "disappear of the named resources and delete+re-offer of the definition, through the real cache.")
+        "disappear of the named resources and delete+re-offer of the definition, through the real cache; and "
+        "reference GRAPHS of 3-7 definitions (6 hand-made incl. diamonds / a shared leaf at depths 1-3, random DAGs "
+        "with dense edges) offered in dependency / reverse / random order, then change / delete / re-offer of any "
+        "node: every cached transitive dependent must be prepared again, nothing may raise.")
 ASSUMPTIONS = [
     "the trees handed to the extractor are the ones cel-python 0.3.0 / lark 0.12 build from cel.lark "
     "(cel_tree_wf; re-validated against the real parser on every generated and corpus expression)",
@@ -1577,6 +1580,248 @@ def watch_cases(rng, n_random):
         yield defn, initial, events
 
 
+# ---- reference GRAPHS through the real cache: diamonds, shared leaves at several depths -------------
+
+def graph_spec(node, nodes_by_name, version):
+    """a schema-valid spec of node's kind naming exactly node['refs']"""
+    kind, refs = node["kind"], node["refs"]
+    if kind == "ValueFunction":
+        return {"return": {"v": version, "who": node["name"]}}
+    if kind == "ResourceFunction":
+        spec = {"apiConfig": {"apiVersion": "v1", "kind": "ConfigMap", "name": "=inputs.name", "namespace": "default"},
+                "resource": {"data": {"k": f"v{version}"}}}
+        if refs:
+            spec["overlays"] = [{"overlayRef": {"kind": "ValueFunction", "name": r}} for r in refs]
+        return spec
+    if kind == "Workflow":
+        steps = []
+        rs = list(refs)
+        if node.get("switch") and len(rs) >= 2:
+            cases = [{"case": f"c{i}", "kind": nodes_by_name[r]["kind"], "name": r} for i, r in enumerate(rs[:-1])]
+            cases[0]["default"] = True
+            steps.append({"label": "switch", "refSwitch": {"switchOn": "=parent.kind", "cases": cases}})
+            rs = rs[-1:]
+        for i, r in enumerate(rs):
+            steps.append({"label": f"step{i}", "ref": {"kind": nodes_by_name[r]["kind"], "name": r},
+                          "inputs": {"n": version}})
+        return {"steps": steps}
+    if kind == "FunctionTest":
+        r = refs[0]
+        return {"functionRef": {"kind": nodes_by_name[r]["kind"], "name": r},
+                "testCases": [{"expectOutcome": {"ok": {}}}]}
+    raise ValueError(kind)
+
+
+def hand_graphs():
+    V, R, W, F = "ValueFunction", "ResourceFunction", "Workflow", "FunctionTest"
+
+    def g(*nodes):
+        return [{"name": n, "kind": k, "refs": list(refs)} for n, k, refs in nodes]
+    return [
+        # the diamond: outer uses inner and shared, inner uses shared
+        g(("shared", V, []), ("inner", W, ["shared"]), ("outer", W, ["inner", "shared"])),
+        # shared leaf at depths 1, 2 and 3
+        g(("leaf", V, []), ("low", W, ["leaf"]), ("mid", W, ["low", "leaf"]), ("top", W, ["mid", "low", "leaf"])),
+        # two paths of different length through different kinds, a test on top
+        g(("leaf", V, []), ("res", R, ["leaf"]), ("wf-a", W, ["res"]), ("wf-b", W, ["wf-a", "leaf", "res"]),
+          ("test", F, ["res"])),
+        # double diamond
+        g(("x", V, []), ("y", V, []), ("p", W, ["x", "y"]), ("q", W, ["x", "y"]), ("top", W, ["p", "q", "x"])),
+        # chain and tree (controls)
+        g(("a", V, []), ("b", W, ["a"]), ("c", W, ["b"]), ("d", W, ["c"])),
+        g(("a", V, []), ("b", V, []), ("r", R, ["a", "b"]), ("t", F, ["r"]), ("w", W, ["r"])),
+    ]
+
+
+def random_graph(rng):
+    n = rng.randint(3, 7)
+    nodes = []
+    for i in range(n):
+        lower = nodes[:]
+        vfs = [m["name"] for m in lower if m["kind"] == "ValueFunction"]
+        fns = [m["name"] for m in lower if m["kind"] in ("ValueFunction", "ResourceFunction")]
+        logic = [m["name"] for m in lower if m["kind"] != "FunctionTest"]
+        kind = rng.choice(["ValueFunction", "ResourceFunction", "Workflow", "Workflow", "Workflow", "FunctionTest"])
+        if kind == "Workflow" and not logic or kind == "FunctionTest" and not fns:
+            kind = "ValueFunction"
+        if kind == "ValueFunction":
+            refs = []
+        elif kind == "ResourceFunction":
+            refs = [v for v in vfs if rng.random() < 0.6][:3]
+        elif kind == "Workflow":
+            refs = [m for m in logic if rng.random() < 0.65][:5] or [rng.choice(logic)]
+        else:
+            refs = [rng.choice(fns)]
+        nodes.append({"name": f"g{i}", "kind": kind, "refs": refs, "switch": rng.random() < 0.3})
+    return nodes
+
+
+async def _graph_scenario(nodes, order, events):
+    from koreo import cache, registry
+    cls = _classes()
+    by_name = {n["name"]: n for n in nodes}
+    runs = {n["name"]: 0 for n in nodes}
+    versions = {n["name"]: 0 for n in nodes}
+    cached = set()
+    problems = []
+
+    def res(name):
+        return registry.Resource(resource_type=cls[by_name[name]["kind"]][0], name=name)
+
+    def preparer(name):
+        real = cls[by_name[name]["kind"]][1]
+
+        async def counting(cache_key, spec_):
+            runs[name] += 1
+            return await real(cache_key, spec_)
+        return counting
+    preparers = {n["name"]: preparer(n["name"]) for n in nodes}
+
+    async def offer(name):
+        versions[name] += 1
+        node = by_name[name]
+        await cache.prepare_and_cache(cls[node["kind"]][0], preparers[name],
+                                      {"name": name, "resourceVersion": str(versions[name])},
+                                      graph_spec(node, by_name, versions[name]))
+        cached.add(name)
+
+    async def delete(name):
+        await cache.delete_from_cache(resource_class=cls[by_name[name]["kind"]][0], cache_key=name)
+        cached.discard(name)
+
+    def dependents(name):
+        """cached definitions that name `name` directly or through cached definitions"""
+        out, todo = set(), [name]
+        while todo:
+            x = todo.pop()
+            for n in nodes:
+                if x in n["refs"] and n["name"] in cached and n["name"] not in out:
+                    out.add(n["name"])
+                    todo.append(n["name"])
+        return out
+
+    def check_subscriptions(stage):
+        for n in nodes:
+            if n["name"] not in cached or not n["refs"]:
+                continue
+            subs = registry._SUBSCRIBER_RESOURCES.get(res(n["name"]), set())
+            missing = sorted(r for r in n["refs"] if res(r) not in subs)
+            if missing:
+                problems.append({"stage": stage, "problem": "named resource is not subscribed to in the registry",
+                                 "definition": n["name"], "missing": missing, "subscriptions": sorted(x.name for x in subs)})
+
+    await _reset_world()
+    try:
+        for name in order:
+            await offer(name)
+            await _settle(8)
+        await _settle(40)
+        check_subscriptions("after the offers")
+        for i, (op, name) in enumerate(events):
+            stage = f"event {i}: {op} {name}"
+            if op in ("change", "redefine") and name not in cached or op == "appear" and name in cached \
+                    or op == "disappear" and name not in cached:
+                continue
+            before = dict(runs)
+            if op in ("appear", "change"):
+                await offer(name)
+            elif op == "disappear":
+                await delete(name)
+            else:
+                await delete(name)
+                await offer(name)
+            await _settle(40)
+            stale = sorted(d for d in dependents(name) if runs[d] <= before[d])
+            if stale:
+                problems.append({"stage": stage, "definition": stale[0], "not_prepared_again": stale,
+                                 "problem": f"definition was not prepared again after a (transitively) named resource did {op}"})
+            check_subscriptions(stage)
+    finally:
+        await _reset_world()
+    return problems
+
+
+def run_graph(nodes, order, events):
+    return loop().run_until_complete(_graph_scenario(nodes, order, events))
+
+
+def graph_signature(problems):
+    p = problems[0]["problem"]
+    return "watch-graph: " + ("named resource is not subscribed" if p.startswith("named resource")
+                              else "dependent not prepared again when a named resource appears/changes/disappears")
+
+
+def graph_shape(nodes):
+    """'diamond' when some resource is reachable from a definition along two different paths"""
+    by = {n["name"]: n for n in nodes}
+
+    def paths(a, b):
+        if a == b:
+            return 1
+        return sum(paths(r, b) for r in by[a]["refs"])
+    for a in nodes:
+        for b in nodes:
+            if a is not b and paths(a["name"], b["name"]) >= 2:
+                return "diamond"
+    return "tree"
+
+
+def check_graph(ctx, nodes, order, events):
+    case = {"kind": "watchgraph", "nodes": nodes, "order": list(order), "events": [list(e) for e in events]}
+    ctx.count(f"watch-graph:{graph_shape(nodes)}")
+    try:
+        problems = run_graph(nodes, order, events)
+    except Exception as e:  # noqa: BLE001
+        sig = f"watch-graph: cache raises {type(e).__name__}"
+
+        def still_raises(evs):
+            try:
+                run_graph(nodes, order, evs)
+            except Exception as e2:  # noqa: BLE001
+                return type(e2) is type(e)
+            return False
+        small = shrink_list(list(events), still_raises)
+        ctx.fail(Failure(signature=sig, what=f"offering / changing / deleting definitions of an acyclic reference graph "
+                                             f"raised {e!r}",
+                         case={**case, "events": [list(x) for x in small]}))
+        return
+    ctx.note_case(case, nontrivial=True)
+    for e in events:
+        ctx.count(f"watch-graph:event:{e[0]}")
+    if problems:
+        sig = graph_signature(problems)
+
+        def still(evs):
+            try:
+                ps = run_graph(nodes, order, evs)
+            except Exception:  # noqa: BLE001
+                return False
+            return bool(ps) and graph_signature(ps) == sig
+        small = shrink_list(list(events), still)
+        sp = run_graph(nodes, order, small)
+        ctx.fail(Failure(signature=sig, what=f"{sp[0]['stage']}: {sp[0].get('definition')}: {sp[0]['problem']}",
+                         case={**case, "events": [list(x) for x in small]}, observed=sp[:4],
+                         expected="every named resource subscribed; every cached transitive dependent prepared again"))
+
+
+def graph_cases(rng, n_random):
+    for nodes in hand_graphs():
+        names = [n["name"] for n in nodes]
+        leaf = names[0]
+        script = [("change", leaf), ("disappear", leaf), ("appear", leaf), ("change", names[1]),
+                  ("redefine", names[-1]), ("change", leaf), ("redefine", names[1]), ("change", leaf)]
+        yield nodes, names, script                                   # dependency order
+        yield nodes, names[::-1], script                              # dependents first
+        yield nodes, names[1:] + names[:1], script                    # shared leaf last
+    for _ in range(n_random):
+        nodes = random_graph(rng)
+        names = [n["name"] for n in nodes]
+        order = rng.choice([names, names[::-1], rng.sample(names, len(names))])
+        events = [(rng.choice(["change", "change", "disappear", "appear", "redefine"]), rng.choice(names))
+                  for _ in range(rng.randint(2, 8))]
+        yield nodes, order, events
+
+
 REGEX_HEADS = ["steps", "steps.", "stepsX", "steps_", "step", "Steps.", "xsteps.", "steps\n", "stepsé", "steps[",
                "parent", "parent.", "parentX", "parents.", "paren", "parent\n", "parenté", "inputs.", ""]
 REGEX_ALPHA = list("ab_1") + [".", ".", "[", "]", "\n", "é", "'", " ", "-", "x"]
@@ -1627,6 +1872,7 @@ def run(ctx: Ctx):
 
         # -- corpus first
         corpus_watch = []
+        corpus_graph = []
         for c in corpus_cases("C14"):
             c = c.get("case", c)
             if c.get("kind") == "extract" and c.get("src") is not None:
@@ -1636,6 +1882,8 @@ def run(ctx: Ctx):
                                                        bucket="corpus-wf"))
             elif c.get("kind") == "watch":
                 corpus_watch.append(c)
+            elif c.get("kind") == "watchgraph":
+                corpus_graph.append(c)
         # -- hand-written expressions (every grammar rule); names read off the text
         for src in HAND_CORPUS:
             add(ex_cases, ex_terms, check_expression(ctx, src, textual_refs(src), bucket="hand"))
@@ -1703,6 +1951,10 @@ def run(ctx: Ctx):
                         [(e[0], tuple(e[1]) if e[1] else None) for e in c["events"]])
         for defn, initial, events in watch_cases(rng, 40 if q else 600):
             check_watch(ctx, defn, initial, events)
+        for c in corpus_graph:
+            check_graph(ctx, c["nodes"], c["order"], [tuple(e) for e in c["events"]])
+        for nodes, order, events in graph_cases(rng, 60 if q else 800):
+            check_graph(ctx, nodes, order, events)
 
         if ctx.model_ok:
             correspond(ctx, "extract_argument_structure + name regexes on real parse trees vs Extract.extract",
@@ -1733,6 +1985,8 @@ def replay(ctx: Ctx, data):
             r = check_rf(ctx, case["spec"], case["rest_ok"])
         elif case.get("kind") == "ft":
             r = check_ft(ctx, case["spec"], case["fn"][0], case["fn"][1], case["cases_ok"], case["inputs_ok"])
+        elif case.get("kind") == "watchgraph":
+            check_graph(ctx, case["nodes"], case["order"], [tuple(e) for e in case["events"]])
         elif case.get("kind") == "watch":
             check_watch(ctx, case["definition"], [tuple(r) for r in case["initial"]],
                         [(e[0], tuple(e[1]) if e[1] else None) for e in case["events"]])
